@@ -68,7 +68,7 @@ def canon(v, depth=0):
     if isinstance(v, int):
         return int(v)
     if isinstance(v, float):
-        return v
+        return "nan" if v != v else v
     if isinstance(v, (bytes, bytearray, memoryview)):
         return bytes(v)
     if isinstance(v, np.ndarray):
@@ -78,7 +78,7 @@ def canon(v, depth=0):
     if isinstance(v, dtypes.TaggedUnion):
         return ("tagged", canon(v.tag, depth + 1), canon(v.value, depth + 1))
     if isinstance(v, dtypes.TupleCoord):
-        return tuple(v.data())
+        return tuple(canon(c, depth + 1) for c in v.data())
     if isinstance(v, dtypes.UUID) or type(v).__name__ == "UUID":
         return str(v)
     if isinstance(v, OrderedMultiDict):
@@ -86,12 +86,42 @@ def canon(v, depth=0):
     if dataclasses.is_dataclass(v) and not isinstance(v, type):
         return {f.name: canon(getattr(v, f.name), depth + 1) for f in dataclasses.fields(v)}
     if isinstance(v, dict):
-        return {canon(k, depth + 1): canon(x, depth + 1) for k, x in v.items()}
+        return {_hashable(canon(k, depth + 1)): canon(x, depth + 1) for k, x in v.items()}
     if isinstance(v, (list, tuple)):
         return [canon(x, depth + 1) for x in v]
     if hasattr(v, "__dict__"):
         return {k: canon(x, depth + 1) for k, x in vars(v).items()}
     return repr(v)
+
+
+def _hashable(x):
+    if isinstance(x, list):
+        return tuple(_hashable(i) for i in x)
+    if isinstance(x, dict):
+        return tuple(sorted((k, _hashable(v)) for k, v in x.items()))
+    return x
+
+
+def diff_paths(a, b, path="", out=None, limit=20):
+    """Leaf-level differences between two canonical values: [(path, a_leaf, b_leaf)]."""
+    if out is None:
+        out = []
+    if len(out) >= limit:
+        return out
+    if isinstance(a, dict) and isinstance(b, dict):
+        for k in list(a.keys()) + [k for k in b.keys() if k not in a]:
+            if k not in a or k not in b:
+                out.append((f"{path}/{k}", a.get(k, "<absent>"), b.get(k, "<absent>")))
+            else:
+                diff_paths(a[k], b[k], f"{path}/{k}", out, limit)
+        return out
+    if isinstance(a, (list, tuple)) and isinstance(b, (list, tuple)) and len(a) == len(b):
+        for i, (x, y) in enumerate(zip(a, b)):
+            diff_paths(x, y, f"{path}[{i}]", out, limit)
+        return out
+    if a != b:
+        out.append((path, a, b))
+    return out
 
 
 def canon_equal(a, b):
@@ -321,13 +351,16 @@ class Deriver:
             comps = [f32(self.rng.uniform(-0.57, 0.57)) for _ in range(3)]
         else:
             v = self.gen(child, ctx, avoid)
-            comps = list(v.data())[:3]
+            comps = list(v.data())   # 3 components: W derived; 4 components: W is on the wire too
         return dtypes.Quaternion(*comps)
 
     # ---- quantised
     def g_QuantizedFloat(self, spec, ctx, avoid):
         prim = spec._child_spec
         raw = self.rand_int(prim.min_val, prim.max_val)
+        if type(spec) is not se.QuantizedFloat and raw == prim.min_val:
+            # specially stepped subclasses (texture rotation): the lowest raw is C10's known finding, keep it there
+            raw += 1
         return spec.decode(raw, ctx)
 
     def g_QuantizedFloatBase(self, spec, ctx, avoid):
@@ -416,8 +449,8 @@ class Deriver:
         raise Unsupported("LengthSwitch: could not make a value whose size selects its own branch")
 
     def g_IntEnum(self, spec, ctx, avoid):
-        members = list(spec.enum_cls)
         prim = spec._child_spec
+        members = [m for m in spec.enum_cls if prim is None or prim.min_val <= int(m) <= prim.max_val]
         r = self.rng.random()
         if members and (r < 0.7 or spec._strict or prim is None):
             return self.rng.choice(members)
@@ -509,15 +542,18 @@ class Deriver:
 
     def g_TypedBytesBase(self, spec, ctx, avoid):
         inner = spec._spec
-        if spec._empty_is_none and self.rng.random() < 0.3:
+        terminated = isinstance(spec._bytes_tmpl, se.BytesTerminated)
+        # (a None under a terminated wrapper writes no terminator at all: only meaningful at the end of a window)
+        if spec._empty_is_none and not terminated and self.rng.random() < 0.3:
             return None
         inner_avoid = tuple(avoid)
-        if isinstance(spec._bytes_tmpl, se.BytesTerminated):
+        if terminated:
             inner_avoid += tuple(spec._bytes_tmpl.terminators)
         inner_ctx = None if spec._lazy else ctx
-        for _ in range(30):
+        fixed = spec._bytes_tmpl._size if isinstance(spec._bytes_tmpl, se.BytesFixed) else None
+        for _ in range(60):
             v = self.gen(inner, inner_ctx, inner_avoid)
-            if not inner_avoid and not spec._empty_is_none:
+            if not inner_avoid and not spec._empty_is_none and fixed is None:
                 return v
             w = se.BufferWriter("<")
             try:
@@ -525,6 +561,8 @@ class Deriver:
             except Exception:
                 return v     # poisoned on purpose
             buf = bytes(w.buffer)
+            if fixed is not None and len(buf) != fixed and self.poison_at is None:
+                continue
             if any(t in buf for t in inner_avoid):
                 continue
             if spec._empty_is_none and not buf:
@@ -606,6 +644,36 @@ class Deriver:
         if k == "list":
             return [self._llsd(depth - 1) for _ in range(rng.randint(0, 3))]
         return {self.rand_text(8) or "k": self._llsd(depth - 1) for _ in range(rng.randint(0, 3))}
+
+    # ---- texture entries / name values (templates.py, namevalue.py)
+    def g_TEFaceBitfield(self, spec, ctx, avoid):
+        n = self.rng.choice([1, 1, 2, 3, self.rng.randint(1, 8)])
+        hi = self.rng.choice([6, 7, 13, 14, 20, 44])
+        faces = sorted(self.rng.sample(range(0, hi + 1), min(n, hi + 1)))
+        return tuple(faces)
+
+    def g_TEExceptionField(self, spec, ctx, avoid):
+        if spec._optional and self.rng.random() < 0.5:
+            return None
+        vals = {}
+        sub = se.ParseContext(vals, parent=ctx)
+        vals[None] = self.gen(spec._spec, sub, avoid)
+        used = set()
+        for _ in range(self.rng.choice([0, 0, 1, 2, 3])):
+            faces = self.g_TEFaceBitfield(None, sub, avoid)
+            if faces in vals or used & set(faces):
+                continue
+            used |= set(faces)
+            vals[faces] = self.gen(spec._spec, sub, avoid)
+        return vals
+
+    def g_NameValuesSerializer(self, spec, ctx, avoid):
+        import hippolyzer.lib.base.namevalue as nv
+        n = self.rng.choice([1, 1, 2, 3])
+        out = nv.NameValueCollection()
+        for _ in range(n):
+            out.append(self.gen(nv.NV_SERIALIZER, ctx, tuple(avoid) + (b"\n",)))
+        return out
 
     def g_Adapter(self, spec, ctx, avoid):
         # generic adapter: its domain is the image of its child's domain under decode()
